@@ -204,6 +204,19 @@ def render_func(f, ind=0, annotations=None):
     i = " " * ind
     L = []
     kind = f["kind"]
+    ch = f.get("churn")
+    if ch == "removed":
+        return []
+    if ch == "class":
+        return [f"{i}class {f['name']}:", f"{i}    pass"]
+    if ch == "value":
+        return [f"{i}{f['name']} = 42"]
+    if ch == "local":
+        g = dict(f, churn=None)
+        return [f"{i}def _holder_{f['name']}():"] + render_func(g, ind + 4, annotations) + [f"{i}    return {f['name']}"]
+    if ch == "sproperty":
+        f = dict(f, kind="sproperty")
+        kind = "sproperty"
     if kind == "wrapped":
         L.append(f"{i}@_deco")
     elif kind == "classmethod":
@@ -243,6 +256,12 @@ def render_module(spec, modname, extra_header=""):
 
     def render_class(c, ind):
         i = " " * ind
+        if c.get("churn") == "removed":
+            return []
+        if c.get("churn") == "value":
+            return [f"{i}{c['name']} = 42", ""]
+        if c.get("churn") == "function":
+            return [f"{i}def {c['name']}():", f"{i}    pass", ""]
         bases = "(" + ", ".join(c["bases"]) + ")" if c["bases"] else ""
         out = [f"{i}class {c['name']}{bases}:"]
         out.append(f"{i}    TAG = {c['name']!r}")
@@ -311,6 +330,10 @@ def load(spec, root=None):
     sys.modules[pkg] = pm
     # modules are ordered so that base classes come first
     for m in spec["modules"]:
+        if m in (spec.get("removed_modules") or ()):
+            if root and os.path.exists(os.path.join(base, m + ".py")):
+                os.unlink(os.path.join(base, m + ".py"))
+            continue
         src = render_module(spec, m)
         fn = os.path.join(base, m + ".py")
         if root:
@@ -326,6 +349,8 @@ def load(spec, root=None):
         lp.modules[m] = mod
         lp.sources[m] = src
     for c in spec["classes"]:
+        if c.get("churn") or c["module"] not in lp.modules or any(x.get("churn") for x in spec["classes"] if x["name"] == c.get("outer")):
+            continue
         obj = lp.modules[c["module"]]
         path = []
         cur = c
@@ -339,6 +364,11 @@ def load(spec, root=None):
 
     for f in spec["funcs"]:
         lp.funcs[f["fid"]] = f
+        if f.get("churn") in ("removed", "class", "value", "local") or f["module"] not in lp.modules or (f.get("cls") and f["cls"] not in lp.classes):
+            if f.get("inner"):
+                inner = f["inner"]
+                lp.funcs[inner["fid"]] = dict(inner, kind="inner", module=f["module"], cls=None, name="_inner%d" % inner["fid"], outer_fid=f["fid"])
+            continue
         if f.get("cls"):
             raw = inspect.getattr_static(lp.classes[f["cls"]], f["name"])
             if isinstance(raw, (classmethod, staticmethod)):
